@@ -9,7 +9,10 @@ from collections import deque
 from typing import TYPE_CHECKING
 from typing import Deque
 from typing import Iterable
+from typing import Iterator
+from typing import List
 from typing import Tuple
+from typing import Union
 
 from .exceptions import JSONPathRecursionError
 
@@ -18,6 +21,9 @@ if TYPE_CHECKING:
     from .node import JSONPathNode
     from .selectors import JSONPathSelector
     from .tokens import Token
+
+    # A container node and an iterator over its (key, value) pairs.
+    _Frame = Tuple[JSONPathNode, Iterator[Tuple[Union[int, str], object]]]
 
 
 class JSONPathSegment(ABC):
@@ -80,21 +86,42 @@ class JSONPathRecursiveDescentSegment(JSONPathSegment):
 
     def _visit(self, node: JSONPathNode, depth: int = 1) -> Iterable[JSONPathNode]:
         """Depth-first, pre-order node traversal."""
-        if depth > self.env.max_recursion_depth:
-            raise JSONPathRecursionError("recursion limit exceeded", token=self.token)
+        # One entry for each container between the node we were called with and
+        # the node being visited: the container's node and a live iterator over
+        # its (key, value) pairs. The iterators are consumed lazily, one child
+        # at a time, so the traversal uses an explicit stack instead of one
+        # nested generator per level.
+        stack: List[_Frame] = []
 
-        yield node
+        while True:
+            if depth + len(stack) > self.env.max_recursion_depth:
+                raise JSONPathRecursionError(
+                    "recursion limit exceeded", token=self.token
+                )
 
-        if isinstance(node.value, dict):
-            for name, val in node.value.items():
+            yield node
+
+            if isinstance(node.value, dict):
+                stack.append((node, iter(node.value.items())))
+            elif isinstance(node.value, list):
+                stack.append((node, iter(enumerate(node.value))))
+
+            # Descend into the next dict or list, in document order, backing up
+            # to the nearest ancestor that has children left to visit.
+            while stack:
+                parent, children = stack[-1]
+                try:
+                    item = next(children)
+                except StopIteration:
+                    stack.pop()
+                    continue
+
+                key, val = item
                 if isinstance(val, (dict, list)):
-                    _node = node.new_child(val, name)
-                    yield from self._visit(_node, depth + 1)
-        elif isinstance(node.value, list):
-            for i, element in enumerate(node.value):
-                if isinstance(element, (dict, list)):
-                    _node = node.new_child(element, i)
-                    yield from self._visit(_node, depth + 1)
+                    node = parent.new_child(val, key)
+                    break
+            else:
+                return
 
     def _nondeterministic_visit(
         self,
